@@ -7,19 +7,19 @@ CHECK = e1(
          "observed after every step, so a Clone and its origin affecting each other shows at once; nil receivers are "
          "exercised only through methods whose doc comment promises nil behaviour. Ring: Len, Current, Range and "
          "ReverseRange with early stop at every k, against the model and against a NEW buffer fed the pushes since the "
-         "last Clear). evaluations = maximal sequences of the depth-bounded families (every shorter sequence is a prefix "
-         "and is checked on the way) + breadth-first-search transitions (each a replay from fresh objects) + the nil "
-         "ring case. non-trivial = at least one operation changed the reference-model state (not a no-op) and, for "
+         "last Clear). evaluations = every sequence of 1..depth operations of the depth-bounded families "
+         "(each executed from fresh objects, shortest first) + the roots and transitions of the breadth-first searches "
+         "(each a replay from fresh objects) + the nil ring case. non-trivial = at least one operation changed the reference-model state (not a no-op) and, for "
          "sets, at least one Clone of a non-nil set or one collision (Add of a present value / Delete of an absent value "
          "on a non-nil set) happened; distinct = the depth-bounded enumeration is injective in (type, initial state, "
          "operation list); search transitions are counted only when longer than the depth bound (so disjoint from it)",
     bq="sets (MapSet[int], SortedSliceSet[int]): 7 initial states (nil, New(), New(1), New(2,0), New(1,1), "
-       "New(2,0,2,1,0), and two independent non-nil sets) x ALL sequences of 5 operations over {Add 0..2, Delete 0..2, "
+       "New(2,0,2,1,0), and two independent non-nil sets) x ALL sequences of 1..5 operations over {Add 0..2, Delete 0..2, "
        "Clear, other=slot.Clone()} x 2 slots, no state merging; breadth-first search with replay to the fixpoint over "
        "(nil-ness and contents of both slots, spare capacity of SortedSliceSet.Values()). Ring: capacities 0..3, ALL "
-       "Push(fresh value)/Clear sequences of 2*cap+3 operations; search to the fixpoint over (retained count, pushes "
+       "Push(fresh value)/Clear sequences of 1..2*cap+3 operations; search to the fixpoint over (retained count, pushes "
        "since Clear mod cap, cleared)",
-    bt="as quick with set sequences of 6 operations and ring sequences of 2*cap+5 operations",
+    bt="as quick with set sequences of 1..6 operations and ring sequences of 1..2*cap+5 operations",
     text="Every operation sequence up to the depth bound is executed on the real containers from fresh objects and every "
          "observer is compared with a mathematical-set / last-k-values model after every step; a breadth-first search "
          "with replay closes the reachable model states under all operations. Wrap-around position, the full flag, "
